@@ -162,6 +162,17 @@ CORPUS = [
     'SELECT s FROM (SELECT s, t, i FROM #t) ORDER BY t DESC, i',
     'SELECT s, i FROM #t ORDER BY s DESC, i DESC',
     'SELECT s, i FROM #t ORDER BY s DESC LIMIT 2',
+    # DISTINCT on aggregate queries whose groups can give equal visible rows (a grouping key that is not selected)
+    'SELECT DISTINCT count(*) AS n FROM #t GROUP BY s ORDER BY n',
+    'SELECT DISTINCT t, count(*) AS n FROM #t GROUP BY t, s ORDER BY t, n DESC LIMIT 3',
+    'SELECT DISTINCT length(s) AS l, count(*) AS n FROM #t GROUP BY l, s',
+    'SELECT DISTINCT max(i) > 4 AS big FROM #t GROUP BY s',
+    # LIMIT 0, LIMIT beyond the result, with and without the other clauses
+    'SELECT s, i FROM #t LIMIT 0',
+    'SELECT DISTINCT s FROM #t ORDER BY s LIMIT 0',
+    'SELECT s, count(*) AS n FROM #t GROUP BY s ORDER BY n LIMIT 0',
+    'SELECT s FROM (SELECT s, i FROM #t LIMIT 0)',
+    'SELECT s, i FROM #t ORDER BY i LIMIT 100',
 ]
 
 
